@@ -392,7 +392,9 @@ class C20(Prop):
     trusted = ["the library loaders (io.npz.load, io.textimage.load, io.agilent.load, io.thermo.load, io.csv.load) and the library filters "
                "called directly are the reference the command line is compared with (they are the subject of C01-C04/C17, not of C20)",
                "written files are read back with io.npz.load / io.textimage.load; .vtk outputs are only checked for their location",
-               "pathlib splits the generated names as the harness does (ASCII stems without leading/trailing dots)"]
+               "pathlib splits the generated names as the harness does (ASCII stems without leading/trailing dots)",
+               "in-process runs replace io.csv's ProcessPoolExecutor by an executor that runs each task at submit (pool workers may not "
+               "start processes); subprocess runs use the real one"]
     assumptions = ["an input that is left with no requested element is skipped without output (the code prints 'skipping'); the property "
                    "text does not say otherwise",
                    "stack inputs share their element names (np.concatenate cannot join different structured dtypes); --elements lists "
